@@ -52,7 +52,7 @@ NAMES = ["", "I", "IA", "IB", "IAB", "J", "Ié", "I\U0001F600", "m.C", "m.IA"]
 # same-width non-ASCII strings whose byte-wise (little-endian memcmp) order differs from code-point order
 WIDE = ["I\u0101", "I\u0200", "\u03a9", "\u4e2d", "I\u00ff", "I\u0100x", "I\U00010301", "I\U0001F600", "\U00010301", "\U0001F600a"]
 MODS = ["", "m", "m.n", "mn", "n", "zope.interface.declarations", "é"]
-KINDS = ["iface", "iface", "iface", "impl", "impl", "none", "named", "anon"]
+KINDS = ["iface", "iface", "iface", "impl", "impl", "implold", "none", "named", "anon"]
 # "descriptive" names: Element.__init__ turns a name containing a space (and no docstring) into __doc__ and
 # leaves __name__ = None, so all such interfaces of one module have EQUAL keys (None, module); the key is
 # observed on the object, and None is written to Coq as a reserved string no generated name equals.
@@ -80,7 +80,7 @@ def generate(run, tier):
     # exhaustive block: all pairs over a structured pool
     pool = []
     i = 0
-    for kind in ("iface", "impl", "named"):
+    for kind in ("iface", "impl", "named", "implold"):
         for nm in ("", "I", "IA", "m.IA"):
             for md in ("", "m", "zope.interface.declarations"):
                 pool.append({"kind": kind, "id": i, "name": nm, "module": md})
@@ -133,10 +133,24 @@ def generate(run, tier):
     return cases
 
 
-KMAP = {"iface": "KIface", "impl": "KImpl", "none": "KNone", "named": "KNamed", "anon": "KAnon"}
+KMAP = {"iface": "KIface", "impl": "KImpl", "implold": "KImpl", "none": "KNone", "named": "KNamed", "anon": "KAnon"}
+
+
+def expected_key(desc, key):
+    """the (name, module) key the property states for a specification: an interface's own __name__ / __module__
+    as given at creation; a class specification's '<module>.<class name>' in zope.interface.declarations whichever
+    way the specification came to be ('implold': materialised from an old-style __implemented__ in the class body;
+    round-6 seed C12/a6 left those with the class-level default name '?').  The Coq operands carry THIS key, so an
+    implementation that orders by anything else contradicts both the model and the Spec."""
+    if desc["kind"] == "iface" and " " not in desc["name"]:     # a descriptive name becomes the doc, __name__ None
+        return [desc["name"], desc["module"]]
+    if desc["kind"] in ("impl", "implold"):
+        return [(desc["module"] or "?") + "." + (desc["name"] or "?"), "zope.interface.declarations"]
+    return key
 
 
 def _op(desc, key):
+    key = expected_key(desc, key)
     return "(mkOp %s %d %s %s)" % (KMAP[desc["kind"]], desc["id"], C.cstr_codes(_nn(key[0])), C.cstr_codes(_nn(key[1])))
 
 
@@ -155,7 +169,7 @@ def _cmp(x, y):
 
 def classify(case, obs):
     a, b = case["a"], case["b"]
-    if a["kind"] not in ("iface", "impl") and b["kind"] not in ("iface", "impl"):
+    if a["kind"] not in ("iface", "impl", "implold") and b["kind"] not in ("iface", "impl", "implold"):
         return None
     return (a["kind"], b["kind"], a["id"] == b["id"] and a["kind"] == b["kind"],
             _cmp(_nn(obs["ka"][0]), _nn(obs["kb"][0])), _cmp(_nn(obs["ka"][1]), _nn(obs["kb"][1])),
